@@ -402,7 +402,18 @@ pub fn structural_one(prop: &str, st: &mut Stats, s: &str, src: Src) {
     st.cases += 1;
     let ex = exec(s);
     st.observe_exec(&ex);
-    let Some(res) = ex.result() else { return };
+    let Some(res) = ex.result() else {
+        if prop == "C02" {
+            // "the token sequence covers the source" presupposes that there is one
+            let why = match &ex.outcome {
+                Outcome::Panic(p) => format!("panic|{}", p.signature()),
+                Outcome::Budget(b) => format!("work-budget|{}", b.counter),
+                _ => return,
+            };
+            st.violation(&Finding::new("C02.no-sequence", &why, "no token sequence was returned for this source".into()), &[s]);
+        }
+        return;
+    };
     let v = View::new(s, res);
     st.observe_view(&v);
     let pt = PosTables::new(s);
